@@ -214,6 +214,7 @@ def build(ctx):
     token_lemmas(ctx, I, mod, CifCls, f_pv, f_parse)
     documents(ctx, I, CifCls, f_to, f_parse)
     frames_part(ctx, f_to)
+    engine_guard(ctx, I, f_pv, f_ff, f_nq, f_sc, fns.get("parse_quote"))
     bounded(ctx)
 
 
@@ -611,6 +612,22 @@ def documents(ctx, I, CifCls, f_to, f_parse):
 
 
 # ================================================================================================ F
+def engine_guard(ctx, I, f_pv, f_ff, f_nq, f_sc, f_pq):
+    """CPython cross-check of the symbolic executor (and of the regular-expression models) on the token functions: concrete arguments, same value."""
+    from pyvc.crosscheck import crosscheck
+    cif = N.cifmod()
+    if f_pv is not None:
+        crosscheck(ctx, I, f_pv, cif.parse_value, [(t,) for t in ("12", "-7", "+3", "1.25", "-0.5", ".5", "1.5e-3", "2E4", "1.234(5)", "12(3)", "abc", "'a b'", '"it\'s"', "C1", "1_555", "?", ".", "-x,y+1/2,z")])
+    if f_ff is not None:
+        crosscheck(ctx, I, f_ff, cif.format_field, [(1.5,), (-2,), ("abc",), ("a b",), ("it's a",), ("",), (0.1,), (123456789012,), (1e-13,), ("'lead",)])
+    if f_nq is not None:
+        crosscheck(ctx, I, f_nq, cif.needs_quote, [("abc",), ("a b",), ("",), ("'x",), ('"y',), ("_name",), ("#c",)])
+    if f_sc is not None:
+        crosscheck(ctx, I, f_sc, cif.is_scalar, [("abc",), (1,), (1.5,), ([1, 2],), ((1, 2),), ([],)])
+    if f_pq is not None:
+        crosscheck(ctx, I, f_pq, cif.parse_quote, [("'a b'",), ('"it\'s"',), ("'x'",)])
+
+
 def frames_part(ctx, f_to):
     if f_to is None:
         return
